@@ -292,7 +292,19 @@ impl Prop for C09 {
         let mut effective = 0;
         let mut touched_earlier: Vec<String> = vec![];
         let mut later_touches_earlier = false;
-        for inv in &case.invocations {
+        for (ii, inv) in case.invocations.iter().enumerate() {
+            // a --dry-run push in between (any goal) must not influence anything that follows
+            if (case.goal + ii) % 3 == 0 {
+                let mut dry = inv.clone();
+                dry.dry_run = true;
+                dry.goal = Goal::All;
+                let o = push(cx, &root_a, &dry, &Default::default());
+                cx.label("dry-run-interleaved");
+                if let Some(c) = crash_or_timeout(&o.out.exit) {
+                    ws::rm_rf(&root_a);
+                    return Verdict::Fail(format!("interleaved --dry-run crashed: {}", c));
+                }
+            }
             let mut inv = inv.clone();
             // a by-name goal that is already applied (because an earlier invocation stopped at a failure and
             // ... cannot happen: names only move forward); but after a failure the same name is requested again: fine
